@@ -683,6 +683,12 @@ def gen_fn(repo, d, body, report):
     if toks[s].text == "pub" and toks[s + 1].text == "(":
         cl = match_close(toks, s + 1)
         edits.add(toks[s + 1].start, toks[cl].end, "", "R5", "visibility")
+    if d.get("noconst") == "1":
+        # R21: `const fn` -> `fn` (the `vpanic()` that R2 puts in place of unreachable!/panic! is not a const fn; the body is unchanged)
+        for q in range(f["start"], f["fn"]):
+            if toks[q].kind == "ident" and toks[q].text == "const":
+                edits.add(toks[q].start, toks[q].end, "", "R21", "const qualifier dropped")
+                stats["R21"] = stats.get("R21", 0) + 1
     if d.get("as"):
         nt = toks[f["fn"] + 1]
         edits.add(nt.start, nt.end, d["as"], "RENAME", f"{d['name']} -> {d['as']}")
